@@ -154,13 +154,15 @@ func (c *GroupCoordinator) JoinGroup(ctx context.Context, req *kmsg.JoinGroupReq
 	} else if member.sessionTimeout == 0 {
 		member.sessionTimeout = defaultSessionTimeout
 	}
+	prevTopics := member.topics
 	member.topics = c.parseSubscriptionTopics(req.Protocols)
 	member.lastHeartbeat = time.Now()
 
 	if len(state.members) == 1 && state.state == groupStateEmpty {
 		state.leaderID = memberID
 		state.startRebalance(timeout)
-	} else if state.state == groupStateStable && !exists {
+	} else if state.state == groupStateStable && (!exists || !sameTopics(prevTopics, member.topics)) {
+		// a new member, or a known member whose subscription changed: the current assignment no longer fits
 		state.startRebalance(timeout)
 	} else if state.state == groupStateEmpty {
 		state.startRebalance(timeout)
@@ -896,6 +898,19 @@ func (c *GroupCoordinator) assignPartitions(ctx context.Context, state *groupSta
 	}
 
 	return assignments
+}
+
+// sameTopics reports whether two subscription lists are identical (same topics in the same order).
+func sameTopics(a, b []string) bool {
+	if len(a) != len(b) {
+		return false
+	}
+	for i := range a {
+		if a[i] != b[i] {
+			return false
+		}
+	}
+	return true
 }
 
 func memberSubscribes(member *memberState, topic string) bool {
